@@ -357,8 +357,26 @@ class Fn:
         if k in ("copy", "move"):
             return self.expr_place(op["pl"], depth, stack)
         if k == "const":
+            if "promoted" in op and "promoted" in self.j and not isinstance(self, _PromotedFn):
+                pe = self.promoted_expr(op["promoted"])
+                if pe is not None:
+                    return pe
             return const_repr(op)
         return "?"
+
+    def promoted_expr(self, k):
+        """value of promoted constant #k of this function, as a canonical expression"""
+        cache = self.__dict__.setdefault("_promoted_cache", {})
+        if k in cache:
+            return cache[k]
+        try:
+            body = self.j["promoted"][k]
+            pf = _PromotedFn(self.facts, f"{self.name}::promoted#{k}", self.j, body)
+            e = pf.expr_local(0)
+        except Exception:
+            e = None
+        cache[k] = e
+        return e
 
     def expr_call(self, t, depth=12, stack=()):
         callee = strip_generics(t["callee"])
@@ -500,11 +518,70 @@ class Fn:
             return self.origins_operand(rv["op"], seen)
         return {"other"}
 
+    def deep_origins(self, op):
+        """origins of an operand, descending through call arguments (collect / map / iter chains);
+        returns leaves 'arg:x.field…' and 'call:<callee>' markers"""
+        f = self
+        out = set()
+        seen = set()
+
+        def go_local(l):
+            if l in seen:
+                return
+            seen.add(l)
+            if 1 <= l <= f.argc:
+                out.add(f.local_name(l))
+                return
+            for d in f.defs().get(l, []):
+                if d[0] == "assign":
+                    go_rv(d[3]["rv"])
+                else:
+                    t = d[2]
+                    out.add("call:" + strip_generics(t["callee"]))
+                    for a in t["args"]:
+                        go_op(a)
+
+        def go_op(o):
+            if o["k"] in ("copy", "move"):
+                base_before = set(out)
+                go_local(o["pl"]["l"])
+                suffix = f._apply_proj("", o["pl"]["p"])
+                if suffix:
+                    for x in list(out - base_before):
+                        out.add(x + suffix)
+                    if 1 <= o["pl"]["l"] <= f.argc:
+                        out.add(f.local_name(o["pl"]["l"]) + suffix)
+            elif o["k"] == "const":
+                pass
+
+        def go_rv(rv):
+            k = rv["k"]
+            if k in ("use", "cast", "repeat"):
+                go_op(rv.get("op"))
+            elif k == "unop":
+                go_op(rv.get("a"))
+            elif k in ("ref", "rawptr", "discr"):
+                go_op({"k": "copy", "pl": rv["pl"]})
+            elif k == "binop":
+                go_op(rv["a"])
+                go_op(rv["b"])
+            elif k == "agg":
+                for o in rv["ops"]:
+                    go_op(o)
+        go_op(op)
+        return out
+
+
+
     def loc(self, bb, idx=None):
         blk = self.blocks[bb]
         if idx is None:
             return loc_of(blk["t"].get("sp"))
         return loc_of(blk["s"][idx].get("sp"))
+
+
+class _PromotedFn(Fn):
+    pass
 
 
 def const_repr(op):
